@@ -16,6 +16,9 @@ def run(chk, replay=None):
                 'sources+sections+properties; with close/reopen in between), BFS exhaustive, plus Delete steps of random behaviours over '
                 'the whole vocabulary; non-trivial = distinct (history, step)')
     file_common.run_file_check(chk, cfgs, sims, judge=judge, replay=replay, coverage=['Delete', 'pre:AddLink', 'pre:SetOne', 'pre:AppendDim'])
+    # very long names are always exercised (HDF5 paths beyond any fixed buffer: 200-byte names nest to paths of 400-600 bytes)
+    if chk.seed % 6 != 5:
+        file_common.run_file_check(chk, ['c04c_' + t, 'c04b_' + t], [], judge=judge, opts={'names': 5})
     # direction B: random API programs recorded from the real library, validated against NixFileTrace.tla
     file_common.run_traces(chk, lambda e: e['a'] == 'Delete', 24 if chk.thorough else 6, 1500 if chk.thorough else 400)
     chk.exhaustive = False
